@@ -74,7 +74,7 @@ ObsFields(out, x) == [i \in 1..Len(x.s.fields) |-> ObsField(out, x, x.s.fields[i
 (* expectation and prediction in the same (string) space as the observation *)
 TargetStr(t) == IF t.k = "struct" THEN [k |-> "struct", ns |-> UriStr(t.ns), n |-> NameXml(t.n)] ELSE t
 FieldStr(e) == [xml |-> NameXml(e.xml), attr |-> e.attr, w |-> e.w, target |-> TargetStr(e.target),
-                ns |-> IF e.ns \in {"unqualified", "?"} THEN e.ns ELSE UriStr(e.ns)]
+                ns |-> IF e.ns \in {"unqualified", "?", "unbound"} THEN e.ns ELSE UriStr(e.ns)]
 FieldsStr(fs) == [i \in 1..Len(fs) |-> FieldStr(fs[i])]
 
 S == [files |-> cur.case.files, start |-> cur.case.start]
@@ -113,7 +113,7 @@ ObsViol(out, c) ==
 PredViolD(c, D) ==
   IF Dropped(S, c, D)
   THEN {[clause |-> "one_struct", subj |-> NameXml(c.n), exp |-> "1", got |-> "0"]}
-  ELSE IF HasFields(c) THEN FieldViol(ExpOf(c), FieldsStr(BuiltFields(S, FileNamed(S, c.f), c.it, BodyOf(c), 8, D))) ELSE {}
+  ELSE IF HasFields(c) THEN FieldViol(ExpOf(c), FieldsStr(BindNs(BuiltFields(S, FileNamed(S, c.f), c.it, BodyOf(c), 8, D), c.ns, D))) ELSE {}
 
 Sel(vs) == {v \in vs : v.clause \in Clauses}
 
